@@ -5,11 +5,12 @@ SPEC = {
     "theorems": {"Properties.C17": ["C17_covered_or_deferred", "C17_no_duplicate_creation", "C17_stale_removed", "C17_idempotent",
                                     "C17_converges", "C17_todo_nil_spec", "C17_grouping", "C17_comment_line", "C17_gitlab_L1", "C17_github_L1",
                                     "C17_platform_L2", "C17_gitlab_idempotent", "C17_github_idempotent", "C17_platforms_converge",
+                                    "C17_server_platforms_L1", "C17_foreign_untouched", "C17_server_platforms_converge",
                                     "C17_gitlab_prefix_L1_refuted", "C17_counting_skips_starves_refuted", "C17_nonvacuous"]},
-    "harness_args": lambda tier: ["C17", "--n", 300, "--diffs", 140, "--servers", 32] if tier == "quick"
+    "harness_args": lambda tier: ["C17", "--n", 260, "--diffs", 100, "--servers", 32] if tier == "quick"
                                  else ["C17", "--n", 4000, "--diffs", 2000, "--servers", 500],
     # used three times (three extra seeds) when an obligation broke without an oracle failure: keep it at quick-tier size
-    "search_args": lambda tier: ["C17", "--n", 400, "--diffs", 100, "--servers", 40],
+    "search_args": lambda tier: ["C17", "--n", 300, "--diffs", 80, "--servers", 40],
     "level": "proof",
     "trusted_base": [
         "Coq 8.16.1 kernel + VM (vm_compute); no axioms (Print Assumptions: closed under the global context)",
